@@ -35,7 +35,8 @@ Inductive dop :=
 | DInfUpd (c : name) (del : bool)
 | DDisrupt (r : Z) (budget ncands : nat) (f : fault) (cands : list name)
 | DDeprov (r : Z) (victims gone : list name) (nfail : nat) (* victims the code deleted and marked; those that left the API at
-                                                     once; candidates whose API delete failed *)
+                                                     once; picked candidates that did not become new victims: their API
+                                                     delete failed, or they were terminating already (stale cluster-state entry) *)
 | DInterleave (r : Z) (ran : bool) (budget ncands : nat) (cands : list name)
     (* a provisioning reconcile that wants one NodeClaim; INSIDE its kubeClient.Create (after ReserveNodeCount, before the
        claim is active) a whole disruption pass runs: StaticDrift.ComputeCommands + StartCommand + its CreateNodeClaims.
